@@ -19,7 +19,7 @@ SRC_TIE = {
     "C04": "_activate and processing_loop (both engines), CallbacksExecutor.call/async_call",
     "C05": "_activate, _trigger and processing_loop of both engines (`async = sync with awaits`), the wrapper and executor methods of callbacks.py in their sync and async forms",
     "C06": "processing_loop (both engines): the protocol's flags `fixed` (re-check after the release) and `atomic` (no suspension point between the last emptiness test and the release) are computed from the scripts (C06_script_flags)",
-    "C08": "CallbackWrapper.call/__call__ (truth value compared with the expected value) and CallbacksExecutor.all/async_all (conjunction, left to right, first failing guard stops)",
+    "C08": "CallbackWrapper.call/__call__ (truth value compared with the expected value), CallbacksExecutor.all/async_all (conjunction, left to right, first failing guard stops) and spec_parser.py (the closure bodies of custom_not/and/or and of the comparator, the branches of build_expression, operator_mapping, replacements, parse_boolean_expr: evalLib_not/and/or, chainLib_last, parser_shape)",
     "C11": "_trigger (the __initial__ branch, the stale activation trigger), _activate on the initial pseudo-transition, BaseEngine.start",
     "C14": "_activate (result accumulation and the unwrap rule), CallbackWrapper.call/__call__ and CallbacksExecutor.call/async_call",
 }
@@ -144,7 +144,7 @@ def main():
     man = dict(
         version=1,
         setup_cmd="cd lean && lake build SMV SMV.Props.Examples " + " ".join(f"SMV.Props.{p}" for p in props) +
-                  " SMV.Src.Tie driver drv_bind drv_expr drv_validate drv_protocol drv_diagram drv_decl drv_store",
+                  " SMV.Src.Tie SMV.Src.TieExpr driver drv_bind drv_expr drv_validate drv_protocol drv_diagram drv_decl drv_store",
         hooks=dict(guard="PYSM_VERIF", enable="no source hooks are used: observation is through the public API, sys.settrace and objects supplied by the harness",
                    baseline_off_cmd=BASE.get("cmd", "cd /repo && /venv/bin/python -m pytest -q"), source_commits=[], add_only=True),
         engines=[dict(name="lean+harness", path="lean/ + harness/", serves_properties=[c["property_id"] for c in checks],
